@@ -189,8 +189,8 @@ class Ledger(Process):
         if self.parameters.get('pair'):
             # two dictionary ports wired to one store; their parts of the update are dictionaries the
             # process builds once and returns at every invocation
-            schema['da'] = {'x': {'_default': 0, '_emit': True}}
-            schema['db'] = {'y': {'_default': 0, '_emit': True}}
+            schema['da'] = {'x': {'_default': 0, '_emit': True}, 'g': {'u': {'_default': 0, '_emit': True}}}
+            schema['db'] = {'y': {'_default': 0, '_emit': True}, 'g': {'v': {'_default': 0, '_emit': True}}}
         return schema
 
     def calculate_timestep(self, states):
@@ -240,7 +240,7 @@ class Ledger(Process):
             upd['vec2'] = np.array([3 * amount, 3 * amount])
         if self.parameters.get('pair'):
             if not hasattr(self, '_pair'):
-                self._pair = ({'x': amount}, {'y': 10 * amount})
+                self._pair = ({'x': amount, 'g': {'u': amount}}, {'y': 10 * amount, 'g': {'v': 10 * amount}})
             upd['da'], upd['db'] = self._pair
         tg = self.parameters.get('toggle')
         if tg and self.k % tg == 0:
